@@ -316,6 +316,7 @@ class Audit:
                 res, exc = None, e
         finally:
             self.on = False
+        self.last = (res, exc, list(self.events))
         return res, exc, list(self.events)
 
 
